@@ -629,7 +629,8 @@ impl State {
             );
         }
 
-        for change in decode_state.changes.drain(..) {
+        // undo the changes of the block in the reverse of the order they were applied
+        for change in decode_state.changes.drain(..).rev() {
             self.apply_backward_change(&mut adds, &mut removes, change);
         }
 
